@@ -2286,7 +2286,12 @@ Inductive frame (s s' : st) : Prop := Frame (H :
   (exists l, log s' = l ++ log s) /\
   (forall b, lookup b (descs s') = lookup b (descs s) \/ In (MA (EvFree b)) (log s') \/ In (MA (EvBadFree b)) (log s')) /\
   (forall b, is_live (al s) b = true ->
-             block_size (al s') b = block_size (al s) b \/ In (MA (EvFree b)) (log s'))).
+             block_size (al s') b = block_size (al s) b \/ In (MA (EvFree b)) (log s')) /\
+  (* bookkeeping blocks: new ones are fresh; an existing one keeps its
+     embedded unique pointer or has it re-initialised *)
+  (forall d D', lookup d (datas s') = Some D' ->
+     (next (al s) <= d)%nat \/
+     exists D, lookup d (datas s) = Some D /\ (dup D' = dup D \/ dup D' = up_init d))).
 
 Lemma block_size_live a b : is_live a b = true <-> block_size a b <> None.
 Proof.
@@ -2299,30 +2304,39 @@ Proof.
 Qed.
 
 Lemma frame_refl s : frame s s.
-Proof. constructor. intros A. split; auto. split; auto. split; auto. split; [exists []; auto|]. split; auto. Qed.
+Proof.
+  constructor. intros A. split; auto. split; auto. split; auto. split; [exists []; auto|]. split; auto. split; auto.
+  intros d D' L. right. exists D'. auto.
+Qed.
 
 Lemma frame_trans s1 s2 s3 : frame s1 s2 -> frame s2 s3 -> frame s1 s3.
 Proof.
-  intros [F1] [F2]. constructor. intros A1. destruct (F1 A1) as (A2 & X1 & N1 & (l1 & L1) & D1 & B1). destruct (F2 A2) as (A3 & X2 & N2 & (l2 & L2) & D2 & B2).
+  intros [F1] [F2]. constructor. intros A1.
+  destruct (F1 A1) as (A2 & X1 & N1 & (l1 & L1) & D1 & B1 & S1). destruct (F2 A2) as (A3 & X2 & N2 & (l2 & L2) & D2 & B2 & S2).
   split; auto. split; [congruence|]. split; [lia|]. split; [exists (l2 ++ l1); rewrite L2, L1, app_assoc; auto|].
   assert (M : forall e, In e (log s2) -> In e (log s3)) by (intros e H; rewrite L2; apply in_or_app; auto).
-  split.
+  split; [|split].
   - intros b. destruct (D2 b) as [E|[E|E]]; auto. rewrite E. destruct (D1 b) as [E'|[E'|E']]; auto.
   - intros b L. destruct (B1 b L) as [E|E]; auto.
     assert (L2' : is_live (al s2) b = true).
     { apply block_size_live. rewrite E. apply block_size_live. auto. }
     destruct (B2 b L2') as [E2|E2]; auto. left. congruence.
+  - intros d D3 L3. destruct (S2 d D3 L3) as [F|(D2' & L2' & E2)]; [left; lia|].
+    destruct (S1 d D2' L2') as [F|(D1' & L1' & E1)]; [left; auto|]. right. exists D1'. split; auto.
+    destruct E2 as [E2|E2]; [|auto]. rewrite E2. auto.
 Qed.
 
 Lemma frame_same s s' :
-  al s' = al s -> descs s' = descs s -> exts s' = exts s -> log s' = log s -> frame s s'.
+  al s' = al s -> descs s' = descs s -> exts s' = exts s -> log s' = log s -> datas s' = datas s -> frame s s'.
 Proof.
-  intros A D X L. constructor. intros O. rewrite A, D, X, L. split; auto. split; auto. split; auto. split; [exists []; auto|]. split; auto.
+  intros A D X L DT. constructor. intros O. rewrite A, D, X, L, DT. split; auto. split; auto. split; auto.
+  split; [exists []; auto|]. split; auto. split; auto. intros d D' LD. right. exists D'. auto.
 Qed.
 
 Lemma frame_add_log s e : frame s (add_log s e).
 Proof.
-  constructor. intros A. unfold add_log. cbn. split; auto. split; auto. split; auto. split; [exists [e]; auto|]. split; auto.
+  constructor. intros A. unfold add_log. cbn. split; auto. split; auto. split; auto. split; [exists [e]; auto|].
+  split; auto. split; auto. intros d D' LD. right. exists D'. auto.
 Qed.
 
 Lemma block_size_remove b b' l :
@@ -2338,13 +2352,45 @@ Qed.
 Lemma frame_do_free s p : frame s (do_free s p).
 Proof.
   destruct p as [b|]; [|apply frame_refl]. constructor. intros A. unfold do_free. cbn [al objs datas descs exts log].
-  split; [apply free_ok; auto|]. split; auto. split; [rewrite next_free; auto|]. split; [eexists [_]; reflexivity|]. split.
+  split; [apply free_ok; auto|]. split; auto. split; [rewrite next_free; auto|]. split; [eexists [_]; reflexivity|].
+  split; [|split].
   - intros b'. rewrite lookup_remove. destruct (Nat.eqb_spec b b') as [->|N]; auto.
     right. destruct (is_live (al s) b'); [left|right]; left; auto.
   - intros b' L. unfold free. destruct (is_live (al s) b) eqn:Lb; auto.
     destruct (Nat.eq_dec b b') as [->|N].
     + right. left. auto.
     + left. unfold block_size. cbn [live]. apply block_size_remove; auto.
+  - intros d D' LD. rewrite lookup_remove in LD. destruct (Nat.eqb_spec b d); [discriminate|]. right. exists D'. auto.
+Qed.
+
+Lemma frame_wr_data s d X D : rd_data s d = Ok D -> dup X = dup D -> frame s (wr_data s d X).
+Proof.
+  intros R E. unfold rd_data in R. destruct (lookup d (datas s)) as [D0|] eqn:L; [|discriminate]. injection R as ->.
+  constructor. intros A. unfold wr_data, set_datas. cbn [al objs datas descs exts log].
+  split; auto. split; auto. split; auto. split; [exists []; auto|]. split; auto. split; auto.
+  intros d' D' LD. rewrite lookup_store in LD. right. destruct (Nat.eqb_spec d d') as [<-|N].
+  - injection LD as <-. exists D. auto.
+  - exists D'. auto.
+Qed.
+
+Lemma frame_set_objs s l : frame s (set_objs s l).
+Proof. apply frame_same; reflexivity. Qed.
+
+Lemma frame_wr_gp s i g : frame s (wr_gp s i g).
+Proof. unfold wr_gp. destruct (nth_error (objs s) i); [apply frame_set_objs|apply frame_refl]. Qed.
+
+Lemma frame_wr_up_slot s i u : frame s (wr_up s (ASlot i) u).
+Proof. unfold wr_up. destruct (nth_error (objs s) i); [apply frame_set_objs|apply frame_refl]. Qed.
+
+Lemma frame_unique_init s a : frame s (unique_init s a).
+Proof.
+  destruct a as [i|d]; [apply frame_wr_up_slot|]. unfold unique_init, wr_up.
+  destruct (lookup d (datas s)) as [D|] eqn:L; [|apply frame_refl].
+  constructor. intros A. unfold set_datas. cbn [al objs datas descs exts log].
+  split; auto. split; auto. split; auto. split; [exists []; auto|]. split; auto. split; auto.
+  intros d' D' LD. rewrite lookup_store in LD. right. destruct (Nat.eqb_spec d d') as [<-|N].
+  - injection LD as <-. exists D. auto.
+  - exists D'. auto.
 Qed.
 
 Section Frame.
@@ -2356,17 +2402,18 @@ Section Frame.
     unfold add_log, set_al. cbn [al objs datas descs exts log].
     split; [eapply malloc_ok; eauto|]. split; auto.
     split; [destruct r; [apply malloc_some in M; destruct M as (_ & _ & ->); lia|apply malloc_none in M; destruct M as (_ & ->); lia]|].
-    split; [eexists [_]; reflexivity|]. split; auto.
-    intros b L. left. destruct r as [b'|].
-    - apply malloc_some in M. destruct M as (-> & LL & _). unfold block_size. rewrite LL. cbn.
-      destruct (Nat.eqb_spec (next (al s)) b) as [<-|]; auto.
-      rewrite fresh_not_live in L by auto. discriminate.
-    - apply malloc_none in M. destruct M as (LL & _). unfold block_size. rewrite LL. reflexivity.
+    split; [eexists [_]; reflexivity|]. split; auto. split.
+    - intros b L. left. destruct r as [b'|].
+      + apply malloc_some in M. destruct M as (-> & LL & _). unfold block_size. rewrite LL. cbn.
+        destruct (Nat.eqb_spec (next (al s)) b) as [<-|]; auto.
+        rewrite fresh_not_live in L by auto. discriminate.
+      + apply malloc_none in M. destruct M as (LL & _). unfold block_size. rewrite LL. reflexivity.
+    - intros d D' LD. right. exists D'. auto.
   Qed.
-End Frame.
 
-Lemma frame_do_malloc' ok s sz s2 r : do_malloc ok s sz = (s2, r) -> frame s s2.
-Proof. intros E. pose proof (frame_do_malloc ok s sz) as F. rewrite E in F. exact F. Qed.
+  Lemma frame_do_malloc' s sz s2 r : do_malloc ok s sz = (s2, r) -> frame s s2.
+  Proof. intros E. pose proof (frame_do_malloc s sz) as F. rewrite E in F. exact F. Qed.
+End Frame.
 
 Lemma ok_inj {A} (a b : A) : Ok a = Ok b -> a = b.
 Proof. congruence. Qed.
@@ -2377,28 +2424,16 @@ Ltac bind_inv H :=
   | bind ?r _ = Ok _ => let E := fresh "E" in destruct r eqn:E; cbn [bind] in H; [|discriminate|discriminate]
   end.
 
-Lemma frame_wr_up s a u : frame s (wr_up s a u).
-Proof.
-  destruct a as [i|d]; unfold wr_up.
-  - destruct (nth_error (objs s) i); [apply frame_same; reflexivity|apply frame_refl].
-  - destruct (lookup d (datas s)); [apply frame_same; reflexivity|apply frame_refl].
-Qed.
-Lemma frame_wr_gp s i g : frame s (wr_gp s i g).
-Proof. unfold wr_gp. destruct (nth_error (objs s) i); [apply frame_same; reflexivity|apply frame_refl]. Qed.
-Lemma frame_wr_data s d D : frame s (wr_data s d D).
-Proof. apply frame_same; reflexivity. Qed.
-Lemma frame_unique_init s a : frame s (unique_init s a).
-Proof. apply frame_wr_up. Qed.
-
 Ltac fr_prim :=
   match goal with
   | |- frame ?s ?s => apply frame_refl
   | |- frame _ (do_free _ _) => eapply frame_trans; [|apply frame_do_free]
-  | |- frame _ (wr_data _ _ _) => eapply frame_trans; [|apply frame_wr_data]
+  | |- frame _ (wr_data _ _ _) => eapply frame_trans; [|eapply frame_wr_data; [eassumption|reflexivity]]
   | |- frame _ (wr_gp _ _ _) => eapply frame_trans; [|apply frame_wr_gp]
-  | |- frame _ (wr_up _ _ _) => eapply frame_trans; [|apply frame_wr_up]
+  | |- frame _ (wr_up _ (ASlot _) _) => eapply frame_trans; [|apply frame_wr_up_slot]
   | |- frame _ (unique_init _ _) => eapply frame_trans; [|apply frame_unique_init]
   | |- frame _ (add_log _ _) => eapply frame_trans; [|apply frame_add_log]
+  | |- frame _ (set_objs _ _) => eapply frame_trans; [|apply frame_set_objs]
   | H : do_malloc _ ?a _ = (?b, _) |- frame _ ?b => eapply frame_trans; [|eapply frame_do_malloc'; exact H]
   end.
 
@@ -2432,26 +2467,6 @@ Ltac fr_fun3 := first [fr_fun2 | match goal with
   | H : shared_reset ?a _ = Ok ?b |- frame _ ?b => eapply frame_trans; [|eapply frame_shared_reset; exact H]
   end].
 
-Section Frame2.
-  Variable ok : nat -> N -> bool.
-
-  Lemma frame_unique_alloc s a sz cb s' : unique_alloc ok s a sz cb = Ok s' -> frame s s'.
-  Proof.
-    unfold unique_alloc. intros H. bind_inv H.
-    destruct (0 <? sz); [|okinj H; repeat fr_fun3].
-    destruct (do_malloc ok a0 sz) as (s2 & [m|]) eqn:M; okinj H; repeat fr_fun3.
-  Qed.
-
-  Lemma frame_shared_alloc s i sz cb s' : shared_alloc ok s i sz cb = Ok s' -> frame s s'.
-  Proof.
-    unfold shared_alloc. intros H. bind_inv H.
-    destruct (0 <? sz); [|okinj H; repeat fr_fun3].
-    destruct (do_malloc ok a DATA_SZ) as (s2 & [d|]) eqn:M; [|okinj H; repeat fr_fun3].
-    bind_inv H. bind_inv H. apply frame_unique_alloc in E0.
-    destruct a1; okinj H; repeat fr_fun3; (eapply frame_trans; [|exact E0]); repeat fr_fun3.
-  Qed.
-End Frame2.
-
 Lemma frame_shared_share s e n s' : shared_share s e n = Ok s' -> frame s s'.
 Proof.
   unfold shared_share. intros H. bind_inv H. bind_inv H. bind_inv H. bind_inv H. bind_inv H.
@@ -2474,39 +2489,92 @@ Proof.
   destruct (0 <? hard a3); bind_inv H; okinj H; repeat fr_fun3.
 Qed.
 
-Lemma frame_unique_swap s a b s' : unique_swap s a b = Ok s' -> frame s s'.
+Lemma frame_unique_swap s u v s' : unique_swap s (ASlot u) (ASlot v) = Ok s' -> frame s s'.
 Proof. unfold unique_swap. intros H. repeat bind_inv H. okinj H. repeat fr_fun3. Qed.
 
-Lemma done_inj {S} (a b : S) o o' : Done a o = Done b o' -> a = b.
-Proof. congruence. Qed.
+Section Frame2.
+  Variable ok : nat -> N -> bool.
+
+  Lemma frame_unique_alloc_slot s u sz cb s' : unique_alloc ok s (ASlot u) sz cb = Ok s' -> frame s s'.
+  Proof.
+    unfold unique_alloc. intros H. bind_inv H.
+    destruct (0 <? sz); [|okinj H; repeat fr_fun3].
+    destruct (do_malloc ok a sz) as (s2 & [m|]) eqn:M; okinj H; repeat fr_fun3.
+  Qed.
+
+  (** writing the entry of a bookkeeping block that did not exist in [s0] *)
+  Lemma frame_fresh_entry s0 s d X :
+    frame s0 s -> (next (al s0) <= d)%nat -> frame s0 (set_datas s (store d X (datas s))).
+  Proof.
+    intros [F] FR. constructor. intros O. destruct (F O) as (A & X' & N' & L & D & B & S).
+    unfold set_datas. cbn [al objs datas descs exts log]. repeat (split; auto).
+    intros d' D' LD. rewrite lookup_store in LD. destruct (Nat.eqb_spec d d') as [<-|N]; [left; auto|]. eauto.
+  Qed.
+
+  Lemma frame_fresh_wr_data s0 s d X : frame s0 s -> (next (al s0) <= d)%nat -> frame s0 (wr_data s d X).
+  Proof. apply frame_fresh_entry. Qed.
+
+  Lemma frame_fresh_wr_up s0 s d u : frame s0 s -> (next (al s0) <= d)%nat -> frame s0 (wr_up s (AData d) u).
+  Proof. intros F FR. unfold wr_up. destruct (lookup d (datas s)); auto. apply frame_fresh_entry; auto. Qed.
+
+  (** a new bookkeeping block: request, initialise, allocate the memory,
+      publish or roll back *)
+  Lemma frame_shared_alloc_tail s1 i sz cb s' : shared_alloc_tail ok s1 i sz cb = Ok s' -> frame s1 s'.
+  Proof.
+    unfold shared_alloc_tail. intros H. destruct (0 <? sz) eqn:SZ; [|okinj H; apply frame_refl].
+    destruct (do_malloc ok s1 DATA_SZ) as (s2 & [d|]) eqn:M; [|okinj H; repeat fr_prim].
+    assert (FR : (next (al s1) <= d)%nat).
+    { unfold do_malloc in M. destruct (malloc ok (al s1) DATA_SZ) as (a' & r) eqn:MM. injection M as <- ->.
+      apply malloc_some in MM. lia. }
+    unfold unique_alloc, unique_reset, unique_get in H. rewrite SZ in H.
+    repeat match goal with
+    | H : bind ?r _ = Ok _ |- _ => let E := fresh "E" in destruct r eqn:E; cbn [bind] in H; [|discriminate|discriminate]
+    | H : Ok _ = Ok _ |- _ => apply ok_inj in H; subst
+    | H : (let '(x, y) := ?e in _) = Ok _ |- _ => destruct e as (? & ?) eqn:?
+    | H : match ?x with Some _ => _ | None => _ end = Ok _ |- _ => destruct x eqn:?
+    end.
+    all: repeat first [ apply frame_fresh_wr_data; [|exact FR] | apply frame_fresh_wr_up; [|exact FR]
+                     | (unfold unique_init; apply frame_fresh_wr_up; [|exact FR]) | fr_prim
+                     | match goal with |- frame _ (match ?x with _ => _ end) => destruct x end ].
+  Qed.
+End Frame2.
 
 Section Frame3.
   Variable ok : nat -> N -> bool.
+
+  Lemma frame_shared_alloc s i sz cb s' : shared_alloc ok s i sz cb = Ok s' -> frame s s'.
+  Proof.
+    rewrite shared_alloc_unfold. intros H. bind_inv H.
+    eapply frame_trans; [eapply frame_shared_reset; eauto|eapply frame_shared_alloc_tail; eauto].
+  Qed.
+
+  Lemma done_inj {S} (a b : S) o o' : Done a o = Done b o' -> a = b.
+  Proof. congruence. Qed.
 
   Lemma frame_mstep s o s' out : mstep ok s o = Done s' out -> frame s s'.
   Proof.
     unfold mstep. destruct (mdom s o); [|discriminate]. destruct o; cbn [mexec]; unfold of_res; intros H.
     - apply done_inj in H; subst s'. apply frame_unique_init.
-    - destruct (unique_alloc ok s (ASlot u) sz cb) eqn:E; try discriminate. apply done_inj in H; subst s'. eapply frame_unique_alloc; eauto.
+    - destruct (unique_alloc ok s (ASlot u) sz cb) eqn:E; try discriminate. apply done_inj in H; subst s'. eapply frame_unique_alloc_slot; eauto.
     - destruct (unique_get s (ASlot u)); try discriminate. apply done_inj in H; subst s'. apply frame_refl.
     - destruct (unique_release s (ASlot u)) as [((s1 & p) & c)| |] eqn:E; try discriminate. apply done_inj in H; subst s'.
       unfold unique_release in E. repeat bind_inv E. apply ok_inj in E.
       assert (X : unique_init s (ASlot u) = s1) by congruence. subst s1. repeat fr_fun3.
     - destruct (unique_swap s (ASlot u) (ASlot v)) eqn:E; try discriminate. apply done_inj in H; subst s'. eapply frame_unique_swap; eauto.
     - destruct (unique_reset s (ASlot u)) eqn:E; try discriminate. apply done_inj in H; subst s'. eapply frame_unique_reset; eauto.
-    - apply done_inj in H; subst s'. unfold obj_reinit. destruct (nth_error (objs s) s0); [apply frame_same; reflexivity|apply frame_refl].
+    - apply done_inj in H; subst s'. unfold obj_reinit. destruct (nth_error (objs s) s0); [apply frame_set_objs|apply frame_refl].
     - destruct (shared_alloc ok s s0 sz _) eqn:E; try discriminate. apply done_inj in H; subst s'. eapply frame_shared_alloc; eauto.
     - destruct (shared_get s s0); try discriminate. apply done_inj in H; subst s'. apply frame_refl.
     - destruct (shared_unique s s0); try discriminate. apply done_inj in H; subst s'. apply frame_refl.
     - destruct (shared_share s e n) eqn:E; try discriminate. apply done_inj in H; subst s'. eapply frame_shared_share; eauto.
     - destruct (gp_swap s a b) eqn:E; try discriminate. apply done_inj in H; subst s'. eapply frame_gp_swap; eauto.
     - destruct (shared_reset s s0) eqn:E; try discriminate. apply done_inj in H; subst s'. eapply frame_shared_reset; eauto.
-    - apply done_inj in H; subst s'. unfold obj_reinit. destruct (nth_error (objs s) w); [apply frame_same; reflexivity|apply frame_refl].
+    - apply done_inj in H; subst s'. unfold obj_reinit. destruct (nth_error (objs s) w); [apply frame_set_objs|apply frame_refl].
     - destruct (weak_from s w s0) eqn:E; try discriminate. apply done_inj in H; subst s'. eapply frame_weak_from; eauto.
     - destruct (weak_lock s w s0) eqn:E; try discriminate. apply done_inj in H; subst s'. eapply frame_weak_lock; eauto.
     - destruct (gp_swap s a b) eqn:E; try discriminate. apply done_inj in H; subst s'. eapply frame_gp_swap; eauto.
     - destruct (weak_reset s w) eqn:E; try discriminate. apply done_inj in H; subst s'. eapply frame_weak_reset; eauto.
-    - apply done_inj in H; subst s'. unfold stray_copy. destruct (nth_error (objs s) src); [apply frame_same; reflexivity|apply frame_refl].
+    - apply done_inj in H; subst s'. unfold stray_copy. destruct (nth_error (objs s) src); [apply frame_set_objs|apply frame_refl].
   Qed.
 End Frame3.
 
@@ -2520,6 +2588,25 @@ Proof.
   - intros I. exists (MA (EvFree b)). split; auto. left. auto.
 Qed.
 
+(** two states with the invariant, related by a frame: the events in between
+    release exactly the blocks that were live before and are not live after *)
+Lemma frame_releases s s' :
+  inv s -> inv s' -> frame s s' ->
+  exists l, log s' = l ++ log s /\
+    forall b, is_live (al s) b = true -> (In b (freed l) <-> is_live (al s') b = false).
+Proof.
+  intros I I' [F]. pose proof (inv_log _ _ I) as (A & _ & _ & FR & _).
+  destruct (F A) as (A' & _ & NX & (l & L) & _ & _ & _). exists l. split; auto. intros b Lb.
+  pose proof (inv_log _ _ I') as (_ & _ & ND' & FR' & _). rewrite L, freed_app in ND', FR'.
+  assert (NB : ~ In b (freed (log s))) by (rewrite FR; intros (_ & X); congruence).
+  assert (LT : (b < next (al s'))%nat).
+  { destruct A as (_ & A). specialize (A b). rewrite <- is_live_In in A. specialize (A Lb). lia. }
+  split.
+  - intros IN. apply (FR' b). apply in_or_app. auto.
+  - intros D. assert (In b (freed l ++ freed (log s))) as IN by (apply FR'; auto).
+    apply in_app_or in IN. tauto.
+Qed.
+
 Section Timing.
   Variable ok : nat -> N -> bool.
 
@@ -2531,15 +2618,20 @@ Section Timing.
       forall b, is_live (al s) b = true -> (In b (freed l) <-> is_live (al s') b = false).
   Proof.
     intros I E. pose proof (mstep_outcome ok s o I) as Q. rewrite E in Q. destruct Q as (I' & _).
-    destruct (frame_mstep ok s o s' out E) as [F]. pose proof (inv_log _ _ I) as (A & _ & _ & FR & _).
-    destruct (F A) as (A' & _ & NX & (l & L) & _ & _). exists l. split; auto. intros b Lb.
-    pose proof (inv_log _ _ I') as (_ & _ & ND' & FR' & _). rewrite L, freed_app in ND', FR'.
-    assert (NB : ~ In b (freed (log s))) by (rewrite FR; intros (_ & X); congruence).
-    assert (LT : (b < next (al s'))%nat).
-    { destruct A as (_ & A). specialize (A b). rewrite <- is_live_In in A. specialize (A Lb). lia. }
-    split.
-    - intros IN. apply (FR' b). apply in_or_app. auto.
-    - intros D. assert (In b (freed l ++ freed (log s))) as IN by (apply FR'; auto).
-      apply in_app_or in IN. tauto.
+    apply frame_releases; auto. eapply frame_mstep; eauto.
   Qed.
 End Timing.
+
+(** a block with an owner before and after keeps its managed memory *)
+Lemma frame_owner_keeps s s' d D D' :
+  inv s -> inv s' -> frame s s' -> lookup d (datas s) = Some D -> lookup d (datas s') = Some D' ->
+  0 < hard D' -> dup D' = dup D.
+Proof.
+  intros I I' [F] L L' P. pose proof (inv_log _ _ I) as (A & _).
+  destruct (F A) as (_ & _ & _ & _ & _ & _ & S).
+  destruct (S d D' L') as [FR|(D0 & L0 & [E|E])].
+  - exfalso. pose proof (inv_live _ _ I d D L) as Lv. destruct A as (_ & A). specialize (A d).
+    rewrite <- is_live_In in A. specialize (A Lv). lia.
+  - congruence.
+  - destruct (inv_mem _ _ I' d D' L' P) as (m & M & _). rewrite E in M. discriminate.
+Qed.
